@@ -139,6 +139,11 @@ def search(ctx, budget):
         ctx.evaluations += 1; ctx.count('hier_element_theorem_' + r[0])
         if r[0] == 'bad':
             ctx.failures.append(({'stage': 'hier-element', 'args': list(j), 'text': r[2]}, r[1]))
+    cj = chain_cases(ctx, ctx.n(120, 4000) * budget)
+    for j, r in zip(cj, impl.pmap(_chain_oracle, cj, chunk=16)):
+        ctx.evaluations += 1; ctx.count('hier_chain_theorem_' + r[0])
+        if r[0] == 'bad':
+            ctx.failures.append(({'stage': 'hier-chain', 'args': [j[0], j[1], [list(l) for l in j[2]], j[3], j[4]], 'text': r[2]}, r[1]))
     d = make(*js[0])
     ctx.sample({'seed': js[0][0], 'root': js[0][1], 'text': (d[0] if d else '')[:600]})
 
@@ -171,6 +176,37 @@ def _he_oracle(args):
         return ('bad', 'C04_hier_element_converts predicts %r, the implementation gives %r' % (want, got), text)
     return ('ok', None, text)
 
+# ---- instances of C04_hier_chain_yields_nested_nodes: nests of any depth, through the whole implementation ----
+def chain_cases(ctx, n):
+    kws = sorted(absdoc.HIER)
+    out = []
+    for i in range(n):
+        depth = ctx.rng.choice([2, 2, 3, 3, 4, 5, 8, 12, 20])
+        levels, w = [], 0
+        for d in range(depth):
+            levels.append((w, ctx.rng.choice(kws), ctx.rng.choice(HE_NUMS), ' '.join(ctx.rng.choice(HE_WORDS[:-2]) for _ in range(ctx.rng.randint(1, 3)))))
+            w += ctx.rng.choice([1, 2, 2, 3, 5])
+        t = ' '.join(ctx.rng.choice(HE_WORDS[:-3] + ['words', 'follow']) for _ in range(ctx.rng.randint(1, 5)))
+        out.append((ctx.rng.choice(stages.URIS), ctx.rng.choice(stages.PREFIXES), levels, w, t))
+    return out
+
+def _chain_oracle(args):
+    uri, prefix, levels, w, t = args
+    G = eidlib.tables()
+    text = ''.join('%s%s %s - %s\n' % (' ' * k, kw, n, h) for k, kw, n, h in levels) + ' ' * w + t + '\n'
+    def build(i, pfx):
+        if i == len(levels):
+            return ['E', 'content', [], [['E', 'p', [['eId', pfx + '__p_1']], [['T', t]]]]]
+        k, kw, n, h = levels[i]
+        tag = absdoc.HIER[kw]
+        cand = (pfx + '__' if pfx else '') + G.aliases.get(tag, tag) + '_' + eidlib.clean_num_ref(n)
+        return ['E', tag, [['eId', cand]], [['E', 'num', [], [['T', n]]], ['E', 'heading', [], [['T', h]]], build(i + 1, cand)]]
+    want = build(0, prefix)
+    got = impl.e2e_sx((uri, 'hier_element', prefix, text))
+    if got != want:
+        return ('bad', 'a nest of %d hierarchical elements: C04_hier_chain_yields_nested_nodes and the eId convention predict %r, the implementation gives %r' % (len(levels), want, got), text)
+    return ('ok', None, text)
+
 def probe_disagreement(ctx, stage, case):
     pass
 
@@ -184,6 +220,8 @@ def replay(obj):
         r = _oracle((case['seed'], case['root'], case['depth'])); print(r[:2]); return 1 if r[0] == 'bad' else 0
     if case.get('stage') == 'keyword':
         r = _kw_oracle(case['index']); print(r[:2]); return 1 if r[0] == 'bad' else 0
+    if case.get('stage') == 'hier-chain':
+        a = case['args']; r = _chain_oracle((a[0], a[1], [tuple(l) for l in a[2]], a[3], a[4])); print(r[:2]); return 1 if r[0] == 'bad' else 0
     if case.get('stage') == 'hier-element':
         r = _he_oracle(tuple(case['args'])); print(r[:2]); return 1 if r[0] == 'bad' else 0
     return 0 if stages.replay_stage(case) else 1
@@ -197,7 +235,7 @@ LEVEL_TEXT = ('Partial. Proved, on the tables regenerated from README.md, akn.pe
               'without blank or backslash, every heading and content line of plain or escaped characters, in any context, rule hier_element of the regenerated grammar and to_dict '
               'give the hier node with the keyword\'s element, that num, that heading and one paragraph (C04_hier_element_yields_hier_node); and through the WHOLE pipeline model - '
               'pre_parse, grammar, to_dict, XML builder, post-processing, eIds - `KEYWORD num - heading` + an indented plain line converts, for every known URI and every prefix, to '
-              '<tag eId=prefix__abbr_num><num/><heading/><content><p eId=...__p_1/></content></tag> (C04_hier_element_converts; instances run on the implementation on every run). '
+              '<tag eId=prefix__abbr_num><num/><heading/><content><p eId=...__p_1/></content></tag> (C04_hier_element_converts; instances run on the implementation on every run); and indentation nesting becomes element nesting to ANY depth: a chain of hierarchical elements nested in one another around a plain line is read by hier_element as one nest and to_dict gives the hier nodes nested in the same way, by induction over the depth (C04_hier_chain_yields_nested_nodes; nests of up to 20 levels run through the whole implementation on every run). '
               'For all other shapes the whole-document statement (text -> prescribed tree) is decided by the '
               'independent specification generator absdoc.py on sampled abstract documents x seven roots, plus every keyword exhaustively, on the '
               'implementation; the model is tied to the code on the same documents by the e2e and dict stages.')
